@@ -36,8 +36,17 @@
   the root's merge(ERROR) and its `parent.updateState(r.state.get())`) — the model keeps
   `updState` atomic; the late-subscription schedule stands for both. Without `(pending …)`
   none of this is offered: env ≠ ERROR is then a plain VIOLATION as before.
+  Optional sixth input field = bystander groups `((pos own ((crit host)…))…)`: the roster holds,
+  before / after the main environment's tasks, the tasks of another environment that is alive
+  (`env`, CONFIGURED) or was destroyed with keepTasks (`loose`: no parent role). The failure
+  then goes through `Failure.worldFail codeWalk` on the whole roster (`failW`): the main
+  environment is `World.envs[0]` (= `Failure.fail` on its own victims, theorem
+  `C03_roster_walk_is_fail`), every live bystander environment settles on its own, and the
+  observation gets `(by (G…))` = per group `(env STATE (root …) (roles …))` / `(loose (STATE…))`.
+  The spec speaks per environment (`specMain` ∧ `specGroups`): an environment with a failed
+  critical task reports ERROR, one without still reports its state.
 -/
-import ControlModel.Model.Failure
+import ControlModel.Model.FailureRoster
 
 namespace Driver.C03
 open RoleTree EnvM Failure
@@ -47,19 +56,39 @@ structure Task where
   host : Nat
   deriving Repr
 
+/-- A bystander group (optional sixth input field, harness/props/c03/bystanders.go): the tasks of
+    another environment, created before / after the main one (= standing before / after its tasks
+    in the roster), which is either still alive (`env`, CONFIGURED) or was destroyed with keepTasks
+    (`loose`: the tasks are in the roster without a parent role). -/
+structure Group where
+  pos : String   -- before | after
+  own : String   -- loose | env
+  tasks : List Task
+  deriving Repr
+
 structure Scen where
   live : St
   tasks : List Task
   victim : Nat
   kind : Kind
   instant : String
+  groups : List Group := []
   deriving Repr
 
 def parseTask : SExp → Option Task
   | .list [c, h] => do pure { crit := (← c.bool?), host := (← h.nat?) }
   | _ => none
 
-def parseScen (x : SExp) : Option Scen :=
+def parseGroup : SExp → Option Group
+  | .list [.atom pos, .atom own, .list ts] => do
+    if pos != "before" && pos != "after" then none
+    if own != "loose" && own != "env" then none
+    let tasks ← ts.mapM? parseTask
+    if tasks.isEmpty then none
+    pure { pos := pos, own := own, tasks := tasks }
+  | _ => none
+
+def parseScen5 (x : SExp) : Option Scen :=
   match x with
   | .list [.atom live, .list ts, v, .atom k, .atom inst] => do
     let l ← St.parse? live
@@ -72,6 +101,16 @@ def parseScen (x : SExp) : Option Scen :=
     -- learnt through reconciliation ⇔ the core was cut off
     if kind.viaReconciliation != (inst == "drop" || inst == "dropabrupt") then none
     pure { live := l, tasks := tasks, victim := victim, kind := kind, instant := inst }
+  | _ => none
+
+def parseScen (x : SExp) : Option Scen :=
+  match x with
+  | .list [a, b, c, d, e] => parseScen5 (.list [a, b, c, d, e])
+  | .list [a, b, c, d, e, .list gs] => do
+    let sc ← parseScen5 (.list [a, b, c, d, e])
+    let groups ← gs.mapM? parseGroup
+    if groups.isEmpty then none
+    pure { sc with groups := groups }
   | _ => none
 
 def liveT (l : St) : TState := if l = .RUNNING then .RUNNING else .CONFIGURED
@@ -126,6 +165,65 @@ def path (i : Nat) : List Nat := [0, i]
 /-- The code as it is. -/
 def cfg : Cfg := codeCfg
 
+/-! ### the roster: the main environment's tasks among the bystanders' -/
+
+/-- Index of a live bystander group's environment in `World.envs` (0 = the main environment). -/
+def envIdx (sc : Scen) (gi : Nat) : Nat := 1 + ((sc.groups.take gi).filter (·.own == "env")).length
+
+def groupEntries (sc : Scen) (gi : Nat) (g : Group) : List (Option Nat × RTask) :=
+  (List.range g.tasks.length).map fun i =>
+    (some gi, { owner := if g.own == "env" then some (envIdx sc gi) else none, path := path i,
+                agent := (g.tasks.getD i { crit := false, host := 0 }).host,
+                exec := (g.tasks.getD i { crit := false, host := 0 }).host })
+
+/-- The roster in its own order, every entry tagged with its group (none: the main environment):
+    groups created before the main environment, its own tasks, groups created after it.
+    One executor per agent (the core re-uses the executor an offer lists). -/
+def rosterTagged (sc : Scen) : List (Option Nat × RTask) :=
+  let gs := (List.range sc.groups.length).zip sc.groups
+  let part (pos : String) := (gs.filter (·.2.pos == pos)).flatMap (fun x => groupEntries sc x.1 x.2)
+  let mine : List (Option Nat × RTask) := (indices sc).map fun i =>
+    (none, { owner := some 0, path := path i, agent := hostOf sc i, exec := hostOf sc i })
+  part "before" ++ mine ++ part "after"
+
+def victimIdx (sc : Scen) : Nat :=
+  (((List.range sc.groups.length).zip sc.groups).filter (·.2.pos == "before")).foldl (fun n x => n + x.2.tasks.length) 0 + sc.victim
+
+def scopeOf (sc : Scen) : Scope :=
+  let h := hostOf sc sc.victim
+  match sc.kind with
+  | .EXEC | .EXEC0 => .exec h h
+  | .AGENT | .AGENT0 | .RAGENT => .agent h
+  | _ => .task (victimIdx sc)
+
+/-- A live bystander environment: deployed and CONFIGURED, idle, its watcher subscribed. -/
+def groupSys (g : Group) : Sys :=
+  mkSys { live := .CONFIGURED, tasks := g.tasks, victim := 0, kind := .FAILED, instant := "idle" }
+
+def worldOf (sc : Scen) (a : Sys) : World :=
+  { envs := a :: (sc.groups.filter (·.own == "env")).map groupSys, roster := (rosterTagged sc).map (·.2) }
+
+/-- The failure event reaches the core: snapshot of the roster, the walk of the code. The main
+    environment's part IS `Failure.fail` on its own victims (`C03_roster_walk_is_fail`). -/
+def failW (sc : Scen) (k : Kind) (a : Sys) : World := worldFail codeWalk cfg k (worldOf sc a) (scopeOf sc)
+
+/-- What the model says about the bystander groups (independent of the main environment's
+    schedule: environments share nothing but the roster). -/
+def byObs (sc : Scen) : List SExp :=
+  let W := failW sc sc.kind (mkSys sc)
+  let tagged := (rosterTagged sc).zip W.roster
+  ((List.range sc.groups.length).zip sc.groups).map fun (gi, g) =>
+    if g.own == "env" then
+      match W.envs[envIdx sc gi]? with
+      | some s0 =>
+        let s := settle cfg 96 (drain cfg s0)
+        let roles := (leaves s.f).map fun l => SExp.list [.atom l.2.1.name, .atom l.2.2.name]
+        .list [.atom "env", .atom s.env.st.name, .list [.atom "root", .atom (rootState s.f).name, .atom (rootStatus s.f).name],
+               .list [.atom "roles", .list roles]]
+      | none => .list [.atom "env", .atom "?"]
+    else
+      .list [.atom "loose", .list ((tagged.filter (fun x => x.1.1 == some gi)).map (fun x => SExp.atom x.2.st.name))]
+
 /-- The queued state update of task `i` runs now (and the watcher looks at what it was sent). -/
 def applyTask (s : Sys) (i : Nat) : Sys :=
   match s.updq.findIdx? (fun x => x.1 == path i) with
@@ -144,7 +242,9 @@ def finalSys (sc : Scen) (finishFirst : Bool := false) (modes : List Nat := []) 
   let vs := (victims sc).map (fun i => (path i, true))
   let (ev, dst) := raceEv sc.live
   let fin (s : Sys) : Sys := if late then settleLate cfg 96 s else settle cfg 96 s
-  let fail (k : Kind) (s : Sys) (vs : List (List Nat × Bool)) : Sys := drain cfg (Failure.fail cfg k s vs)
+  -- through the roster: `(failW sc k s).envs[0]` = `Failure.fail cfg k s vs` (theorem C03_roster_walk_is_fail)
+  let fail (k : Kind) (s : Sys) (vs : List (List Nat × Bool)) : Sys :=
+    drain cfg (((failW sc k s).envs.head?).getD (Failure.fail cfg k s vs))
   let setLeaves (s : Sys) (ps : List (List Nat)) (v : TState) (r : Bool) : Sys :=
     ps.foldl (fun acc p => drain cfg (setLeaf cfg acc p v r)) s
   match sc.instant with
@@ -241,7 +341,8 @@ def obsOf (sc : Scen) (s : Sys) (pend : List Nat := []) : SExp :=
     .list [.atom "run", .list (runEvents log)],
     .list [.atom "stamps", SExp.ofBool (isVal s.env.vars.soeor), SExp.ofBool (isVal s.env.vars.eoeor)],
     .list [.atom "stops", natsSx (sortNats (s.stopped.filterMap fun p => p.getLast?))],
-    .list [.atom "trans", .atom trans]])
+    .list [.atom "trans", .atom trans]] ++
+    (if sc.groups.isEmpty then [] else [.list [.atom "by", .list (byObs sc)]]))
 
 /-! ### Spec on what the implementation reported -/
 
@@ -264,7 +365,24 @@ def anyCrit (sc : Scen) : Bool := (victims sc).any (critOf sc)
 def undisturbed (sc : Scen) : St :=
   if racing sc then (if sc.live = .RUNNING then .CONFIGURED else .RUNNING) else sc.live
 
-def specOn (sc : Scen) (impl : SExp) : Bool :=
+/-- Per environment: a live bystander environment one of whose CRITICAL tasks is in the snapshot
+    must report ERROR; one none of whose critical tasks failed must still report CONFIGURED. -/
+def specGroups (sc : Scen) (impl : SExp) : Bool :=
+  let tagged := rosterTagged sc
+  let idx := (List.range tagged.length).zip tagged
+  let obs : List SExp := match field impl "by" with
+    | some [.list gs] => gs
+    | _ => []
+  ((List.range sc.groups.length).zip sc.groups).all fun (gi, g) =>
+    if g.own != "env" then true else
+      let critHit := idx.any fun (i, tg, t) => tg == some gi && (scopeOf sc).covers i t &&
+        (g.tasks.getD (t.path.getLast?.getD 0) { crit := false, host := 0 }).crit
+      let st := match obs[gi]? with
+        | some (.list (.atom "env" :: .atom st :: _)) => st
+        | _ => "?"
+      if critHit then st == "ERROR" else st == "CONFIGURED"
+
+def specMain (sc : Scen) (impl : SExp) : Bool :=
   let env := atom1 impl "env"
   if anyCrit sc then
     -- ends in ERROR, and if a run was (or became) active its end is recorded
@@ -275,6 +393,9 @@ def specOn (sc : Scen) (impl : SExp) : Bool :=
     env == "ERROR" && (!runActive || stamps)
   else
     env == (undisturbed sc).name
+
+/-- The property per environment of the world: the main one and every live bystander. -/
+def specOn (sc : Scen) (impl : SExp) : Bool := specMain sc impl && (sc.groups.isEmpty || specGroups sc impl)
 
 def hypOf (sc : Scen) (impl : SExp) : String :=
   let env := atom1 impl "env"
